@@ -249,7 +249,7 @@ func genBadDep(t *rapid.T) BadDep {
 	a1, a2 := genArchName(t, "a1"), genArchName(t, "a2")
 	p1, p2 := rapid.SampledFrom(profileNames).Draw(t, "p1"), rapid.SampledFrom(profileNames).Draw(t, "p2")
 	class := rapid.SampledFrom([]string{"unterminated-bracket", "unterminated-paren", "unterminated-profile", "unterminated-substvar",
-		"mixed-negation", "second-version", "second-arch-list", "unknown-operator-U1", "unknown-operator-U2", "two-names", "substvar-junk"}).Draw(t, "class")
+		"mixed-negation", "second-version", "second-arch-list", "unknown-operator-U1", "unknown-operator-U2", "two-names", "substvar-junk", "nul-byte", "dollar-without-brace"}).Draw(t, "class")
 	var tail string
 	// a valid ", rel" or " | alt" may follow every corruption: no construct of
 	// the grammar contains ',' or '|', so a closer further right belongs to a
@@ -300,6 +300,7 @@ func genBadDep(t *rapid.T) BadDep {
 	case "second-arch-list":
 		tail = rapid.SampledFrom([]string{
 			name + " [" + a1 + "] [" + a2 + "]", name + " [!" + a1 + "] (" + op + " " + ver + ") [!" + a2 + "]", name + " [" + a1 + "] <" + p1 + "> [" + a2 + "]",
+			name + " [] [" + a1 + "]", name + " [ ] [!" + a1 + " !" + a2 + "]", name + " [] (" + op + " " + ver + ") []", name + " [" + a1 + "] []",
 		}).Draw(t, "v")
 		suffixOK = true
 	case "unknown-operator-U1":
@@ -310,6 +311,15 @@ func genBadDep(t *rapid.T) BadDep {
 		bad := rapid.SampledFrom([]string{"==", "=>", "=<"}).Draw(t, "bad")
 		tail = name + " (" + bad + " " + ver + ")"
 		suffixOK = true
+	case "nul-byte":
+		// a NUL is no end of input: whatever stands behind it is still part of the field
+		tail = rapid.SampledFrom([]string{
+			name + "\x00" + name, name + "\x00 (" + op + " " + ver, name + " (" + op + " " + ver + ")\x00(<< 9)", name + ":" + a1 + "\x00 ${x", "${" + name + "}\x00b",
+			name + "\x00 [" + a1, name + "\x00, [", name + "\x00|(", "\x00",
+		}).Draw(t, "v")
+	case "dollar-without-brace":
+		// "${" is the substvar marker, a "$" followed by something else is not
+		tail = rapid.SampledFrom([]string{"$" + name + "}", "$x}", name + " | $ {" + name + "}", "$", "$$", "$(" + name + ")", "$ " + name}).Draw(t, "v")
 	case "substvar-junk":
 		// a substvar is a whole alternative: nothing but ',' '|' or the end may follow it
 		other := genPkgName(t, "other")
@@ -337,7 +347,7 @@ func genBadDep(t *rapid.T) BadDep {
 
 var specC04Malformed = Register(&Spec[BadDep]{
 	Prop: "C04", Name: "malformed",
-	Rule: "one corruption of a valid canonical field, each its own class: closing ] ) > or } missing from a construct (at the end of input, or followed by further valid relations or alternatives whose own closers must not be borrowed); a ${substvar} followed by anything but ',' '|' or the end (a name, a second substvar, a clause); mixed negation in an arch list; a second (version) clause; a second [arch] list; an unknown operator not starting with '=' (U1: ~= != >< <> ~ ^ ...) or starting with '=' (U2: == => =<); two names separated only by blanks - optionally preceded (and where sound followed) by valid relations. Oracle: Parse returns (nil, error) and UnmarshalControl returns an error and leaves no relations in its receiver; a fixed valid field parsed right afterwards through either entry point comes out as written. Every case is non-trivial; distinct by text.",
+	Rule: "one corruption of a valid canonical field, each its own class: closing ] ) > or } missing from a construct (at the end of input, or followed by further valid relations or alternatives whose own closers must not be borrowed); a NUL byte anywhere with more text behind it; a '$' that is not followed by '{'; a ${substvar} followed by anything but ',' '|' or the end (a name, a second substvar, a clause); mixed negation in an arch list; a second (version) clause; a second [arch] list; an unknown operator not starting with '=' (U1: ~= != >< <> ~ ^ ...) or starting with '=' (U2: == => =<); two names separated only by blanks - optionally preceded (and where sound followed) by valid relations. Oracle: Parse returns (nil, error) and UnmarshalControl returns an error and leaves no relations in its receiver; a fixed valid field parsed right afterwards through either entry point comes out as written. Every case is non-trivial; distinct by text.",
 	Check: func(c BadDep, r *Recorder) error {
 		r.Case(c.Text, true, "malformed:"+c.Class)
 		r.Sample(c)
